@@ -135,8 +135,15 @@ class Ctx:
         return w
 
     def line_table(self):
+        """raises ValueError (TranslateError) when the source is outside the translator's subset; the
+        text-located fallback table is then installed so that the search for a concrete failing
+        schedule can go on"""
         if self.table is None:
-            self.table = L.build_line_table(self.world("paths"))
+            try:
+                self.table = L.build_line_table(self.world("paths"))
+            except ValueError:
+                self.table = L.build_line_table_text(self.world("paths"))
+                raise
         return self.table
 
     def orc(self):
@@ -874,20 +881,22 @@ def encode_zone(z, idx, names, classes):
         lst.append(val)
         return len(lst) - 1
     if isinstance(z, tz.tzutc):
-        return [0, idx, 0, 0, 0]
+        return [0, idx, 0, 0, 0, 0, 0, 0, 0]
     if isinstance(z, tz.tzoffset):
         sec = z._offset.total_seconds()
-        return [1, idx, nm(z._name), int(sec * 10 ** 6), 0]
+        return [1, idx, nm(z._name), int(sec * 10 ** 6), 0, 0, 0, 0, 0]
     if isinstance(z, tz.tzlocal):
         return [2, idx, int(z._std_offset.total_seconds() * 10 ** 6), int(z._dst_offset.total_seconds() * 10 ** 6),
-                nm(z._tznames[0])]
+                nm(z._tznames[0]), 0, 0, 0, 0]
     if isinstance(z, tz.tzrange):
-        val = (z._std_abbr, z._dst_abbr, z._std_offset, z._dst_offset, z._start_delta, z._end_delta)
-        return [3, idx, 1 if isinstance(z, tz.tzstr) else 0, cls_index("range", val), 0]
+        # one ==-class number per compared attribute
+        return [3, idx, 1 if isinstance(z, tz.tzstr) else 0] + [
+            cls_index("range." + a, getattr(z, a)) for a in
+            ("_std_abbr", "_dst_abbr", "_std_offset", "_dst_offset", "_start_delta", "_end_delta")]
     if isinstance(z, tz.tzfile):
-        val = (z._trans_list, z._trans_idx, z._ttinfo_list)
-        return [4, idx, 0 if type(z) is tz.tzfile else 1, cls_index("file", val), 0]
-    return [5, idx, 0, 0, 0]
+        return [4, idx, 0 if type(z) is tz.tzfile else 1] + [
+            cls_index("file." + a, getattr(z, a)) for a in ("_trans_list", "_trans_idx", "_ttinfo_list")] + [0, 0, 0]
+    return [5, idx, 0, 0, 0, 0, 0, 0, 0]
 
 
 def glue_checks(verdict, o):
@@ -900,6 +909,14 @@ def glue_checks(verdict, o):
     enc = [encode_zone(z, i + 1, names, classes) for i, z in enumerate(zs)]
     for z in zs:
         stats["classes"][type(z).__name__] = stats["classes"].get(type(z).__name__, 0) + 1
+    for z in zs:
+        if isinstance(z, (tz.tzutc, tz.tzoffset, tz.tzlocal, tz.tzrange, tz.tzfile)):
+            try:
+                hash(z)
+                verdict.violation({"kind": "correspondence: zone is hashable but the translated class has "
+                                           "__hash__ = None", "input": {"zone": repr(z)}}, concrete=False)
+            except TypeError:
+                pass
     # == table against the model, reflexivity, symmetry, equal => equal offsets
     reqs = [(M_ZEQ, enc[i] + enc[j]) for i in range(len(zs)) for j in range(len(zs))]
     model = o.call_many(reqs)
@@ -926,7 +943,7 @@ def glue_checks(verdict, o):
                 la, other = (a, b) if isinstance(a, tz.tzlocal) else (b, a)
                 if la._std_offset != other.utcoffset(PROBES[0]) or la._hasdst:
                     verdict.violation({"kind": "equal zones report different offsets", "input": inp})
-            if m != [1 if real else 0, 1 if real else 0]:
+            if m != [1 if real else 0, 1 if real else 0, 1 if real_ne else 0]:
                 verdict.violation({"kind": "correspondence: == differs from FacEq.zone_eq", "input": inp,
                                    "impl": real, "model": m}, concrete=False)
     return stats
@@ -988,8 +1005,9 @@ def main():
     t0 = time.time()
     verdict = C.Verdict(CID, MATCHERS)
     build_err = None
+    build_log = ""
     try:
-        C.ensure_built([AREA], VO)
+        _ok, build_log = C.ensure_built([AREA], VO)
     except C.BuildError as ex:
         build_err = ex
     t_build = time.time() - t0
@@ -1035,7 +1053,7 @@ def main():
         table_ok = False
         table_violation = {"kind": "correspondence: the factory source contains a statement the model does not "
                                    "have (line classification is fail-closed)", "input": None, "detail": str(ex)}
-        tasks = [t for t in tasks if t[0] in ("seq", "clone")]
+        # (thread tasks still run, on the fallback table, to find a concrete failing schedule)
 
     # regression corpus (minimised earlier failures) runs first, in this process
     results = []
@@ -1170,8 +1188,14 @@ def main():
         except Exception as ex:
             verdict.violation({"kind": "glue check failed to run", "input": None, "detail": repr(ex)}, concrete=False)
 
-    if not props["ok"] and not verdict.violations:
-        verdict.violation({"kind": "broken proof obligation", "theorem_file": "coq/props/C18.v",
+    if not props["ok"]:
+        gen_failed = "GENERATOR-FAILED" in (props.get("log") or "") or "generator_failed" in (props.get("log") or "") \
+            or "GENERATOR FAILED" in build_log or "FacEqGen" in (props.get("log") or "") \
+            or "FacCfgGen" in (props.get("log") or "")
+        verdict.violation({"kind": "broken proof obligation" + (
+                               " (C18_gen_*: the source no longer translates to / no longer equals the model: "
+                               "harness/gen_factory.py)" if gen_failed else ""),
+                           "theorem_file": "coq/props/C18.v",
                            "theorems": props["theorems"], "discharged": props["discharged"], "input": None,
                            "log_tail": props["log"][-3000:]}, concrete=False)
     rc = verdict.finish()
